@@ -316,30 +316,43 @@ Definition run_a (h : list tstmt) : astate := fold_left (fun a s => snd (step_a 
 Definition run_b (h : list tstmt) : dstate := fold_left (fun b s => snd (step_b b s)) h b_empty.
 Definition q15 : expr := ECmp CEq (ECol 1) (ELit (VInt 5)).
 
-(* DELETE leaves the index entry, the scan returns the deleted row: class 1 *)
-Lemma index_refuted_delete :
-  let h := [TCreate 0; TIns [VInt 1; VInt 5; VInt 1]; TDel (Some (ECmp CEq (ECol 0) (ELit (VInt 1))))] in
-  query_a (run_a h) q15 = [[VInt 1; VInt 5; VInt 1]] /\ query_b (run_b h) q15 = [] /\ q_class (run_a h) q15 = 1.
-Proof. vm_compute. repeat split. Qed.
-(* UPDATE of the indexed column: the old entry stays, the new one carries no usable row id: class 2 *)
-Lemma index_refuted_update :
-  let h := [TCreate 0; TIns [VInt 1; VInt 5; VInt 1];
-            TUpd [(1%nat, VInt 6)] (Some (ECmp CEq (ECol 2) (ELit (VInt 1))))] in
-  query_a (run_a h) q15 = [[VInt 1; VInt 6; VInt 1]] /\ query_b (run_b h) q15 = [] /\ q_class (run_a h) q15 = 2 /\
-  query_a (run_a h) (ECmp CEq (ECol 1) (ELit (VInt 6))) = [] /\
-  query_b (run_b h) (ECmp CEq (ECol 1) (ELit (VInt 6))) = [[VInt 1; VInt 6; VInt 1]].
-Proof. vm_compute. repeat split. Qed.
-(* the residual filter forgets x1 > 7: class 3 *)
+(* the residual filter forgets x1 > 7: class 3 (open) *)
 Lemma index_refuted_residual :
   let h := [TCreate 0; TIns [VInt 1; VInt 5; VInt 1]] in
   let q := EAnd q15 (ECmp CGt (ECol 1) (ELit (VInt 7))) in
   query_a (run_a h) q = [[VInt 1; VInt 5; VInt 1]] /\ query_b (run_b h) q = [] /\ q_class (run_a h) q = 3.
 Proof. vm_compute. repeat split. Qed.
 
-(* CREATE INDEX skips the rows with a NULL in any indexed column (INSERT does not): a point query on
-   the first column of a composite index misses them: class 4 *)
-Lemma index_refuted_backfill :
+(* CREATE INDEX back-fills the tombstone a DELETE left behind, the scan does not look at the delete
+   bit of the rows it fetches and returns the deleted row: class 1 (open) *)
+Lemma index_refuted_backfill_tomb :
+  let h := [TIns [VInt 1; VInt 5; VInt 1]; TDel (Some (ECmp CEq (ECol 0) (ELit (VInt 1)))); TCreate 0] in
+  query_a (run_a h) q15 = [[VInt 1; VInt 5; VInt 1]] /\ query_b (run_b h) q15 = [] /\ q_class (run_a h) q15 = 1.
+Proof. vm_compute. repeat split. Qed.
+
+(* ---------------------------------------------------------------- repaired (653471d, f7aa3d3, 772f5ce) *)
+(* DELETE removes the index entry (key with the row-id suffix): the former class-1 witness *)
+Lemma index_repaired_delete :
+  let h := [TCreate 0; TIns [VInt 1; VInt 5; VInt 1]; TDel (Some (ECmp CEq (ECol 0) (ELit (VInt 1))))] in
+  query_a (run_a h) q15 = [] /\ query_b (run_b h) q15 = [] /\ q_class (run_a h) q15 = 0.
+Proof. vm_compute. repeat split. Qed.
+(* UPDATE of the indexed column moves the entry, on the multi-pass path and on the former one-pass
+   path (WHERE pk = literal) alike: the former class-2 witnesses *)
+Lemma index_repaired_update :
+  (let h := [TCreate 0; TIns [VInt 1; VInt 5; VInt 1];
+             TUpd [(1%nat, VInt 6)] (Some (ECmp CEq (ECol 2) (ELit (VInt 1))))] in
+   query_a (run_a h) q15 = [] /\ query_b (run_b h) q15 = [] /\ q_class (run_a h) q15 = 0 /\
+   query_a (run_a h) (ECmp CEq (ECol 1) (ELit (VInt 6))) = [[VInt 1; VInt 6; VInt 1]] /\
+   query_b (run_b h) (ECmp CEq (ECol 1) (ELit (VInt 6))) = [[VInt 1; VInt 6; VInt 1]]) /\
+  (let h := [TCreate 0; TIns [VInt 1; VInt 5; VInt 1];
+             TUpd [(1%nat, VInt 6)] (Some (ECmp CEq (ECol 0) (ELit (VInt 1))))] in
+   query_a (run_a h) q15 = [] /\ query_b (run_b h) q15 = [] /\
+   query_a (run_a h) (ECmp CEq (ECol 1) (ELit (VInt 6))) = [[VInt 1; VInt 6; VInt 1]] /\
+   query_b (run_b h) (ECmp CEq (ECol 1) (ELit (VInt 6))) = [[VInt 1; VInt 6; VInt 1]]).
+Proof. vm_compute. repeat split. Qed.
+(* CREATE INDEX back-fills rows with a NULL in another indexed column: the former class-4 witness *)
+Lemma index_repaired_backfill :
   let h := [TIns [VInt 1; VNull; VInt 2]; TCreate 1] in
   let q := ECmp CEq (ECol 2) (ELit (VInt 2)) in
-  query_a (run_a h) q = [] /\ query_b (run_b h) q = [[VInt 1; VNull; VInt 2]] /\ q_class (run_a h) q = 4.
+  query_a (run_a h) q = [[VInt 1; VNull; VInt 2]] /\ query_b (run_b h) q = [[VInt 1; VNull; VInt 2]] /\ q_class (run_a h) q = 0.
 Proof. vm_compute. repeat split. Qed.
